@@ -53,6 +53,23 @@ def gen_explicit_h(R, tier):
                 features=['explicit_h'], explicit=dict(count=k * n, copies=n, weights=weights))
 
 
+def gen_h_caps(R, tier):
+    """explicit single-hydrogen fragments bonded to aromatic / aliphatic atoms, listed before or after them"""
+    core = R.choice(['[$]c1ccccc1', '[$]c1ccc([$])cc1', '[$]c1ccccc1[$]', 'c1cc([$])cc([$])c1C', '[$]c1ccncc1', '[$]CC[$]', '[$]N[$]'])
+    ncap = core.count('[$]')
+    hname = R.choice(['[$][H]', '[$]H'])
+    caps = ['[#H]'] * ncap
+    pre = R.randint(0, ncap)
+    base = '{' + ''.join(caps[:pre]) + '[#A]' + ''.join('([#H])' for _ in caps[pre:]) + '}'
+    if pre >= 2:
+        # several caps in front: the first ones as branches of the core node
+        base = '{[#H][#A]' + ''.join('([#H])' for _ in range(ncap - 1)) + '}'
+    s = base + '.{#A=%s,#H=%s}' % (core, hname)
+    return dict(input=s, last_all_atom=True, legacy=True, kind='h_caps', dedicated=False, nlevels=1,
+                features=['explicit_h', 'hydrogen_fragment', 'h_cap_on_aromatic' if 'c1' in core else 'h_cap_on_aliphatic'],
+                ncaps=ncap)
+
+
 def gen_weighted(R, tier):
     """a C01 string whose atoms carry weight annotations (incl. weight 0): hydrogens must copy them"""
     m, cname = molgen.gen_mol_class(R)
@@ -91,6 +108,8 @@ def gen_inner(R, tier):
     r = R.random()
     if r < 0.12:
         return gen_explicit_h(R, tier)
+    if r < 0.17:
+        return gen_h_caps(R, tier)
     if r < 0.27:
         return gen_weighted(R, tier)
     if r < 0.42:
@@ -107,7 +126,7 @@ def nontrivial(case):
     f = set(case['features'])
     if case['kind'] == 'sampler':
         return case.get('_steps', 0) >= 1
-    return case['kind'] in ('fragset', 'explicit_h', 'weighted') or bool(f & {'charged_at_cut', 'aromatic_cut'})
+    return case['kind'] in ('fragset', 'explicit_h', 'weighted', 'h_caps') or bool(f & {'charged_at_cut', 'aromatic_cut'})
 
 
 def key(case):
@@ -143,6 +162,11 @@ def oracle(case):
             invariants.check_valence(fine, 'level %d: ' % lv)
             last['fine'] = fine
     run_steps(case, step)
+    if case['kind'] == 'h_caps' and 'fine' in last:
+        fine = last['fine']
+        caps = [n for n, d in fine.nodes(data=True) if d.get('fragname') == 'H']
+        expect(len(caps) == case['ncaps'] and all(fine.nodes[n].get('element') == 'H' and fine.degree(n) == 1 for n in caps),
+               'valence:explicit-hydrogen-lost', lambda: 'hydrogen fragments in the result: %r, %d written' % (caps, case['ncaps']))
     if case['kind'] == 'explicit_h' and 'fine' in last:
         fine = last['fine']
         mapped_h = [n for n, d in fine.nodes(data=True) if d.get('element') == 'H' and 'mapping' in d
